@@ -23,7 +23,7 @@ except ImportError:
     mpmath = None
 
 RULE = ("requests are drawn from VERIF_SEED: parameters on both sides of every branch, support boundaries, far tails; "
-        "Poisson means 1e-3..1e3, counts 0..500, binomial trials 0..170 (and up to 400), dof 0..343 (Gamma overflows above), "
+        "Poisson means 1e-3..1e3, counts 0..500, binomial trials 0..170 (and up to 400), dof 0..400, "
         "chi-bar weight vectors, sorted argument grids per family; a case is non-trivial when the model answers ok/err and is "
         "counted once per distinct (op, outcome/branch, magnitude class of the parameters) key. "
         "Inv_CDF_Poisson with counts>=100 and cdf<1e-6 (Inv_GammaQ, a>100, p->1) is the corner reported under C06")
@@ -32,6 +32,9 @@ CORR_ONLY = ["CDF_Poisson = sum of PMF_Poisson (goes through the numerical Gamma
              "Inv_CDF_Poisson, Quantile_Gauss accuracy (1e-7 / 1e-3 through Inv_GammaQ; 1e-4 through Inv_Erf)",
              "far tails; KDE tabulated values vs the definition, normalisation through Interpolation::Integrate"]
 ASSUMPTIONS = ["exp/log/sqrt/erf/pow of libm approximate the real functions (parameters of the model)",
+               "rounding slack (documented, minimal): PMF/CDF_Binomial get the denormal spacing 2^-1074 times the other factors as absolute "
+               "slack when a factor p^x or (1-p)^(t-x) underflows to a denormal; CDF_Maxwell_Boltzmann may be negative by at most 8 ulp of its erf term "
+               "(two nearly equal terms are subtracted for x/a < 1e-5)",
                "Gamma, GammaQ, GammaP, Inv_GammaQ, Inv_Erf are the functions of property C06/C17 (parameters of the model)"]
 TRUSTED = ["mpmath 1.3 at 50 digits (exp, log, erf, erfinv, gamma, loggamma, gammainc, quad) as a validated-not-verified "
            "reference of the definitions; self-test in finalize"]
@@ -227,13 +230,13 @@ def generate(tier, seed, ctx):
     # ---- chi-square / chi-bar-square ----
     for _ in range(300 * n1):
         c = rng.random()
-        k = rng.uniform(0.5, 340) if c < 0.35 else float(rng.randint(1, 340)) if c < 0.7 else rng.choice(
-            [0.0, 1e-7, 9e-7, 1.1e-6, 1e-6, 0.5, 1.0, 2.0, 199.0, 200.0, 201.0, 200.5, 340.0])
+        k = rng.uniform(0.5, 400) if c < 0.35 else float(rng.randint(1, 400)) if c < 0.7 else rng.choice(
+            [0.0, 1e-7, 9e-7, 1.1e-6, 1e-6, 0.5, 1.0, 2.0, 199.0, 200.0, 201.0, 200.5, 250.0, 260.0, 320.0, 343.0, 344.0, 400.0])
         x = rng.choice([0.0, -1.0, -1e-300, rng.uniform(0, 3 * k + 10), max(0.0, k + rng.uniform(-5, 5) * math.sqrt(2 * k + 1)), 10.0 ** rng.uniform(-8, 0)])
         R.append("c07.chi_pdf %s %s" % (hx(x), hx(k)))
         R.append("c07.chi_cdf %s %s" % (hx(x), hx(k)))
     for _ in range(10 * n1):
-        k = rng.choice([0.5, 1.0, 2.0, 3.0, rng.uniform(0.5, 340), float(rng.randint(1, 340))])
+        k = rng.choice([0.5, 1.0, 2.0, 3.0, rng.uniform(0.5, 400), float(rng.randint(1, 400)), float(rng.randint(250, 400))])
         xs = [0.0] + [max(0.0, k + rng.uniform(-4, 6) * math.sqrt(2 * k)) for _ in range(9)] + [k + 1.0]
         grid("chi", (k,), xs, None, lambda x: "c07.chi_cdf %s %s" % (hx(x), hx(k)))
     for _ in range(100 * n1):
@@ -244,6 +247,15 @@ def generate(tier, seed, ctx):
         if m and rng.random() < 0.2:
             w[rng.randrange(m)] = 0.0
         x = rng.choice([0.0, -1.0, rng.uniform(0, 20), rng.uniform(0, 3), 10.0 ** rng.uniform(-6, 2)])
+        R.append("c07.chibar_pdf %s %s" % (hx(x), lst(w)))
+        R.append("c07.chibar_cdf %s %s" % (hx(x), lst(w)))
+    for _ in range(6 * n1):   # long, sparse weight vectors: degrees of freedom up to 400
+        m = rng.randint(200, 401)
+        w = [0.0] * m
+        for k in [0, 1, m - 1] + [rng.randrange(m) for _ in range(3)]:
+            w[k] = rng.random()
+        sw = sum(w); w = [v / sw for v in w]
+        x = rng.uniform(0.5, 1.2) * m
         R.append("c07.chibar_pdf %s %s" % (hx(x), lst(w)))
         R.append("c07.chibar_cdf %s %s" % (hx(x), lst(w)))
     for _ in range(6 * n1):
